@@ -749,7 +749,19 @@ func (d *Dom) DivModConst(x *Bits, k int64, mod bool) *Bits {
 	if signed {
 		lo, _ := d.Range(x.Bits(), true)
 		if lo.Sign() < 0 {
-			unsupported("signed division of a possibly negative value")
+			// Go truncates toward zero: divide the magnitude (as an unsigned value of the same width, which also holds
+			// the magnitude of the most negative value) and give the result the sign of the dividend
+			xb := x.Bits()
+			neg := xb[w-1]
+			zero := d.Const(0, w, false)
+			ux := &Bits{W: w, Signed: false, b: xb}
+			mag := d.ITE(neg, d.AddSub(token.SUB, zero, ux), ux)
+			mag.Lin = nil
+			res := d.DivModConst(&Bits{W: w, Signed: false, b: mag.Bits()}, k, mod)
+			rb := res.Bits()
+			nres := d.AddSub(token.SUB, zero, &Bits{W: w, Signed: false, b: rb})
+			out := d.ITE(neg, nres, &Bits{W: w, Signed: false, b: rb})
+			return &Bits{W: w, Signed: true, b: out.Bits()}
 		}
 	}
 	f := func() []Node {
